@@ -969,6 +969,43 @@ pub fn fixed_sweep() -> Result<u64, Violation> {
     }
     drop(prev);
     let a1 = alloc::my_allocs();
+    // Second pass (may allocate): the abbreviation of a fixed-offset zone is
+    // its offset, printed as sign, two-digit hours, then minutes and seconds
+    // only as far as they are needed; `Zoned` reproduces the offset too.
+    for s in -93_599..=93_599i32 {
+        let s = std::hint::black_box(s);
+        if s == 0 {
+            continue;
+        }
+        let tz = TimeZone::fixed(Offset::from_seconds(s).unwrap());
+        let a = s.unsigned_abs();
+        let (h, m, sec) = (a / 3600, (a / 60) % 60, a % 60);
+        let sign = if s < 0 { '-' } else { '+' };
+        let want = if sec != 0 {
+            format!("{sign}{h:02}:{m:02}:{sec:02}")
+        } else if m != 0 {
+            format!("{sign}{h:02}:{m:02}")
+        } else {
+            format!("{sign}{h:02}")
+        };
+        let info = tz.to_offset_info(ts);
+        if info.abbreviation() != want || info.offset().seconds() != s {
+            return Err(Violation {
+                clause: "fixed_offset".into(),
+                detail: format!(
+                    "fixed offset {s} s: to_offset_info says offset {} abbreviation {:?}, expected {want:?}",
+                    info.offset().seconds(),
+                    info.abbreviation()
+                ),
+            });
+        }
+        if tz.iana_name().is_some() || tz.is_unknown() {
+            return Err(Violation {
+                clause: "fixed_offset".into(),
+                detail: format!("fixed offset {s} s: has an IANA name or claims to be unknown"),
+            });
+        }
+    }
     if a1 != a0 {
         return Err(Violation {
             clause: "unexpected_alloc".into(),
